@@ -122,13 +122,13 @@ def rt_cases(tier):
     out.append(_rt('stale-short-timeout', 50, [FULL, 16, TD, 's']))
     out.append(_rt('stale-long-timeout', 300, [FULL, 16, TD, 's']))
     out.append(_rt('fresh', T, [FULL, 16, TD, 'f']))
-    out.append(_rt('empty-then-fresh', 300, [0, 0, 0, 'z'], [60, [FULL, 16, TD, 'f']]))
-    out.append(_rt('version0-then-fresh', 300, [FULL, 0, TD, 'z'], [60, [FULL, 16, TD, 'f']]))
-    out.append(_rt('hb0-then-fresh', 300, [FULL, 16, TD, 'z'], [60, [FULL, 16, TD, 'f']]))
-    out.append(_rt('stale-then-fresh', 300, [FULL, 16, TD, 's'], [60, [FULL, 16, TD, 'f']]))
+    out.append(_rt('empty-then-fresh', 600, [0, 0, 0, 'z'], [60, [FULL, 16, TD, 'f']]))
+    out.append(_rt('version0-then-fresh', 600, [FULL, 0, TD, 'z'], [60, [FULL, 16, TD, 'f']]))
+    out.append(_rt('hb0-then-fresh', 600, [FULL, 16, TD, 'z'], [60, [FULL, 16, TD, 'f']]))
+    out.append(_rt('stale-then-fresh', 600, [FULL, 16, TD, 's'], [60, [FULL, 16, TD, 'f']]))
     out.append(_rt('empty-then-stale', 300, [0, 0, 0, 'z'], [60, [FULL, 16, TD, 's']]))
     out.append(_rt('hb0-then-stale', 300, [FULL, 16, TD, 'z'], [60, [FULL, 16, TD, 's']]))
-    out.append(_rt('version0-then-wrong', 300, [FULL, 0, TD, 'z'], [60, [FULL, 65536 * 2, TD, 'f']]))
+    out.append(_rt('version0-then-wrong', 600, [FULL, 0, TD, 'z'], [60, [FULL, 65536 * 2, TD, 'f']]))
     out.append(_rt('empty-then-version0', 300, [0, 0, 0, 'z'], [60, [FULL, 0, TD, 'f']]))
     if tier == 'thorough':
         for T in (80, 500, 1500):
